@@ -78,7 +78,25 @@ pub fn execute(scn: &Value) -> RunReport {
     let logging = scn.get("log").and_then(Value::as_bool).unwrap_or(false);
     log::set_max_level(if logging { log::LevelFilter::Trace } else { log::LevelFilter::Off });
     let before = LOG_BYTES.load(std::sync::atomic::Ordering::Relaxed);
+    // environment of the embedding process (environment leg): variables set before anything runs
+    let env: Vec<(String, String)> = scn.get("env").and_then(Value::as_object).map(|o| o.iter().filter_map(|(k, v)| v.as_str().map(|v| (k.clone(), v.to_string()))).collect()).unwrap_or_default();
+    for (k, v) in &env {
+        std::env::set_var(k, v);
+    }
+    let _ = crate::seams::take_env_reads();
     let mut rep = execute_inner(scn);
+    rep.env_reads = crate::seams::take_env_reads();
+    if !env.is_empty() {
+        rep.count("fault.environment_variable_set");
+        for (k, _) in &env {
+            std::env::remove_var(k);
+        }
+        for v in rep.violations.iter_mut() {
+            if let (Some(o), Some(e)) = (v.scenario.as_object_mut(), scn.get("env")) {
+                o.insert("env".into(), e.clone());
+            }
+        }
+    }
     log::set_max_level(log::LevelFilter::Off);
     if logging {
         rep.count("fault.log_backend_enabled_at_trace");
